@@ -46,7 +46,7 @@ def check_C03(ctx):
     funs = 'mpz_add:mpz_sub:mpz_add_ui:mpz_sub_ui:mpz_ui_sub:mpz_neg:mpz_abs:mpz_mul_2exp:mpz_set:mpz_swap'
     ctx.validate(ctx.run_driver(b, 'alias', shards=8, extra='funs=' + funs, tier='thorough', timeout=600))     # every alias partition x exact/generous allocation
     ctx.validate(ctx.run_driver(b, 'corners_z', shards=16, extra='funs=mpz_add:mpz_sub:mpz_cmp', timeout=900))       # every pair of corner-alphabet operands
-    trace_drivers(ctx, [('c03_mpn', 16, 600), ('c03_mpz', 8, 600)], pure_drivers=['c03_mpn', 'c03_mpz'])
+    trace_drivers(ctx, [('c03_mpn', 16, 600), ('c03_mpz', 8, 600), ('c14_kern', 16, 600)], pure_drivers=['c03_mpn', 'c03_mpz'])      # c14_kern: the composite add/sub kernels the property is anchored in (addadd, addsub, subadd, sumdiff, nsumdiff, add/sub_err)
     return ctx.finish('model_checking',
         rule='R2: MpzAors enumerates every (alias triple, value triple in -V..V at limb base 3, spare allocation) exhaustively; '
              'R3/R1: every length n (all residues of the unrolled kernels) x 7 content kinds x placements x overlaps of the mpn kernels and every '
